@@ -69,7 +69,7 @@ impl CpuMask {
     }
 
     /// The width of the mask in machine words.
-    #[cfg(test)]
+    #[cfg(any(test, folo_verif))]
     pub(crate) fn words(&self) -> NonZero<usize> {
         NonZero::new(self.words.len())
             .expect("a mask is created at least one word wide and never becomes narrower")
@@ -108,7 +108,7 @@ impl CpuMask {
     /// Whether the mask contains a processor.
     ///
     /// A processor that lies beyond the width of the mask is not in the mask.
-    #[cfg(test)]
+    #[cfg(any(test, folo_verif))]
     pub(crate) fn contains(&self, processor_id: ProcessorId) -> bool {
         let position = BitPosition::of(processor_id);
 
